@@ -6,10 +6,14 @@ import hashlib
 import json
 import random
 
-from . import coqrun, kvalue, tz
+from . import coqrun, kgraph, kvalue, tz
 from .engine_kvalue import outcome
 from .terms import Const, Keys, coq_term, enc, same
 from .tz import tawazi
+
+import warnings  # noqa: E402
+
+warnings.filterwarnings("ignore", message="Input ExecNode .* is not used to produce")
 
 
 def stmt_id(obj):
@@ -42,7 +46,96 @@ def sched_cfg_of(d, res_keys):
                 cp={i: 0 for i in nodes}, seq={i: False for i in nodes}, res={i: "thread" for i in nodes})
 
 
+def setup_part(pid, tier, rng, res, dist, only=None):
+    """compose() on DAGs with setup nodes, after the original was called / set up / never run: the composed DAG
+    takes the stored setup results from the original (does not run those nodes again), runs a setup node it
+    needs at most once over two calls, returns the original's values with the inputs overridden, and leaves
+    the original's setup state alone."""
+    ncases = 80 if tier == "quick" else 1200
+    cases = []
+    for _ in range(ncases):
+        c = kgraph.gen_graph_case(rng, max_n=6)
+        c["debug"] = []
+        c["tags"] = {}
+        if not c["setup"]:
+            roots = [j for j in range(c["n"]) if not any(b == j for a, b in c["edges"])]
+            c["setup"] = roots[:1]
+        n = c["n"]
+        c["hist"] = rng.choice(["call", "call", "setup", "none"])
+        c["outs"] = sorted(rng.sample(range(n), rng.randint(1, min(2, n))))
+        cand = [i for i in range(n) if i not in c["outs"] and i not in c["setup"]]
+        c["ins"] = sorted(rng.sample(cand, rng.randint(0, min(2, len(cand)))))
+        cases.append(c)
+    if only is not None:
+        cases = list(only)
+    for c in cases:
+        base = dict(engine="kcompose", variant="setup", case=c)
+        n = c["n"]
+        try:
+            d, fs = kgraph.build_dag(c)
+        except BaseException:  # noqa: BLE001
+            dist["setup_build_error"] += 1
+            continue
+        if c["hist"] == "call":
+            tz.run_controlled(lambda: d(), tz.Ctl(free_run=True))
+        elif c["hist"] == "setup":
+            tz.run_controlled(lambda: d.setup(), tz.Ctl(free_run=True))
+        stored = {k: v for k, v in d.results.items() if k in d.exec_nodes and d.exec_nodes[k].setup}
+        try:
+            cd = d.compose("cmp", ["n%d" % i for i in c["ins"]], ["n%d" % i for i in c["outs"]])
+        except ValueError:
+            dist["setup_compose_ValueError"] += 1
+            continue
+        except BaseException as e:  # noqa: BLE001
+            res.hit("C19", "monitor", "compose raised %s: %s" % (type(e).__name__, str(e)[:120]), dict(base, kind="monitor"))
+            continue
+        res.evaluations += 1
+        dist["setup_hist_" + c["hist"]] += 1
+        vals = [("in%d" % i, k) for k, i in enumerate(c["ins"])]
+        eset = {tuple(e) for e in c["edges"]}
+
+        def ev(i, memo):
+            if i in memo:
+                return memo[i]
+            if i in c["ins"]:
+                memo[i] = vals[c["ins"].index(i)]
+            else:
+                memo[i] = ("n%d" % i,) + tuple(ev(j, memo) for j in range(i) if (j, i) in eset) + ((7,) if c["consts"].get(str(i)) else ())
+            return memo[i]
+        memo = {}
+        expect = tuple(ev(i, memo) for i in c["outs"])
+        counts = collections.Counter()
+        for rep in range(2):
+            ctl = tz.Ctl(free_run=True)
+            st = tz.run_controlled(lambda: cd(*vals), ctl)
+            ex = [e[1] for e in ctl.trace if e[0] == "XENTER"]
+            counts.update(ex)
+            again = sorted(set(ex) & set(stored))
+            if again:
+                for p_ in ("C19", "C11"):
+                    res.hit(p_, "monitor", "the composed DAG (inputs %s, outputs %s, original %s before composing) executed setup node(s) %s whose result the original already holds" % (c["ins"], c["outs"], c["hist"], again), dict(base, kind="monitor"))
+            if st[0] != "ok":
+                res.hit("C19", "monitor", "the composed DAG raised %s: %s" % (type(st[1]).__name__, str(st[1])[:120]), dict(base, kind="monitor"))
+                break
+            got = tuple(st[1])  # outputs given as a list: a tuple of len(outs) values
+            if got != expect:
+                res.hit("C19", "monitor", "the composed DAG (inputs %s, outputs %s) returned %r; the original pipeline with these nodes overridden computes %r" % (c["ins"], c["outs"], got, expect), dict(base, kind="monitor"))
+                break
+        twice = sorted(k for k, v in counts.items() if v > 1 and k in cd.exec_nodes and cd.exec_nodes[k].setup)
+        if twice:
+            for p_ in ("C19", "C11"):
+                res.hit(p_, "monitor", "two calls of the composed DAG executed its setup node(s) %s twice" % twice, dict(base, kind="monitor"))
+        now = {k: v for k, v in d.results.items() if k in d.exec_nodes and d.exec_nodes[k].setup}
+        if now != stored:
+            for p_ in ("C19", "C15"):
+                res.hit(p_, "monitor", "composing / running the composed DAG changed the setup results held by the original (%s -> %s)" % (sorted(stored), sorted(now)), dict(base, kind="monitor"))
+
+
 def run(pid, tier, seed, res, only=None):
+    if only is not None and only and only[0].get("variant") == "setup":
+        dist = collections.Counter()
+        setup_part(pid, tier, random.Random(seed), res, dist, only=[o["case"] for o in only])
+        return
     rng = random.Random(seed * 49979687 + 5)
     n = 160 if tier == "quick" else 2500
     progs = [kvalue.gen_prog(rng, max_stmts=8, p_sub=0.0, p_flag=0.25) for _ in range(n)]
@@ -50,6 +143,7 @@ def run(pid, tier, seed, res, only=None):
         progs = [o["prog"] for o in only]
     dist = collections.Counter()
     items, where = [], []
+    cp_items = []
     for pi, prog in enumerate(progs):
         keys = Keys()
         kvalue._K.cur = keys
@@ -112,6 +206,15 @@ def run(pid, tier, seed, res, only=None):
         items.append(term_set)
         if impl[0] != "ok":
             continue
+        # ---- the composed DAG schedules by the documented compound priorities of ITS graph (C06 / C07)
+        try:
+            tb = kgraph.impl_tables(cd)
+            cids = coqrun.Ids(list(tb["nodes"]) + [p_ for ps_ in tb["deps"].values() for p_ in ps_])
+            cp_items.append((dict(base=base, tables=tb, ids=cids, in_ids=in_ids, out_ids=out_ids),
+                             "kprio %s %s %s" % (coqrun.fun_table({cids(k_): cids.l(v_) for k_, v_ in tb["deps"].items()}, "[]", coqrun.nat_list),
+                                                 coqrun.fun_table({cids(k_): v_ for k_, v_ in tb["prio"].items()}, "0%Z", coqrun.z), coqrun.nat_list(cids.l(tb["nodes"])))))
+        except BaseException as e:  # noqa: BLE001
+            res.hit(pid, "divergence", "tables of the composed DAG not readable: %s: %s" % (type(e).__name__, e), dict(base, kind="table"))
         # ---- run the composed DAG on supplied values
         vals = [value_for(rng, prog, i) for i in ins]
         ctl = tz.Ctl(free_run=True)
@@ -162,6 +265,25 @@ def run(pid, tier, seed, res, only=None):
             items.append(term)
     prefix = "kcompose_%s" % pid
     coqrun.clean_build(prefix)
+    if cp_items:
+        paths_cp = coqrun.write_shards(prefix + "cp", "Graph Priority Select GraphCheck", [t_ for _, t_ in cp_items], per_file=120, ty="list Z")
+        results_cp, errors_cp = coqrun.run_shards(paths_cp)
+        if errors_cp:
+            res.hit(pid, "divergence", "coqc failed on K-compose priority files: " + errors_cp[0][2][-400:], dict(kind="coqc-error"))
+        for k_, (e_, _t) in enumerate(cp_items):
+            mv = results_cp.get(k_)
+            if mv is None:
+                res.hit(pid, "divergence", "no model result (composed priority table)", dict(e_["base"], kind="no-result"))
+                continue
+            model = {e_["ids"].names[mv[i_]]: mv[i_ + 1] for i_ in range(0, len(mv), 2)}
+            t_ = e_["tables"]
+            bad = {n_: (t_["cp"][n_], model.get(n_)) for n_ in t_["nodes"] if t_["cp"][n_] != model.get(n_)}
+            if bad:
+                n0 = sorted(bad)[0]
+                msg = "composed DAG (inputs %s, outputs %s): compound priority of %s is %s, own priority + sum over distinct descendants is %s" % (e_["in_ids"], e_["out_ids"], n0, bad[n0][0], bad[n0][1])
+                for p_ in ("C07", "C06", "C19"):
+                    res.hit(p_, "monitor", msg, dict(e_["base"], kind="monitor", differing={k2: list(v2) for k2, v2 in bad.items()}))
+        coqrun.clean_build(prefix + "cp")
     paths = coqrun.write_shards(prefix, "Graph Sched Dataflow Terms Compose IsoCheck", items, per_file=60)
     results, errors = coqrun.run_shards(paths)
     coqrun.clean_build(prefix)
@@ -196,6 +318,8 @@ def run(pid, tier, seed, res, only=None):
                 codes = [(v[i], e["ids"].names[v[i + 1]] if v[i + 1] < len(e["ids"].names) else v[i + 1]) for i in range(0, len(v), 2)]
                 res.hit("C19", "divergence", "K-compose: the composed table is not embedded in the original pipeline with the inputs overridden: %s (1 node missing, 2 function, 3 arguments, 4 flag, 5 pre-computed value, 6 absent id)" % codes[:4],
                         dict(base, kind="divergence", codes=codes))
+    if only is None:
+        setup_part(pid, tier, rng, res, dist)
     res.distribution["kcompose"] = dict(dist)
     res.engine_info["kcompose"] = dict(programs=len(progs), model_evaluations=len(items))
     if progs:
